@@ -12,6 +12,7 @@ import Driver.IterUtils
 import Driver.HandlerStore
 import Driver.Migrate
 import Driver.Archive
+import Driver.SseClient
 
 def main (args : List String) : IO UInt32 := do
   let stdin ← IO.getStdin
@@ -29,4 +30,5 @@ def main (args : List String) : IO UInt32 := do
   | ["handlerstore"] => Drv.loop stdin Drv.HandlerStore.step (HandlerStore.Store.init (.mem none)); return 0
   | ["migrate"] => Drv.loop stdin Drv.Migrate.step Migrate.fresh; return 0
   | ["archive"] => Drv.loop stdin Drv.Archive.step (); return 0
+  | ["sseclient"] => Drv.loop stdin Drv.SseClient.step (); return 0
   | _ => IO.eprintln "usage: wfdriver <model>"; return 2
